@@ -13,9 +13,11 @@ From GE Require Export Model.Expr Model.NumLit Model.WxStr Model.TextDecode Mode
 
 Inductive pres (A : Type) :=
   | POk (a : A) (rest : str)
-  | PFail (pos : str).
+  | PFail (pos : str) (warned : bool).   (* warned: a diagnostic was added before failing *)
 Arguments POk {A} a rest.
-Arguments PFail {A} pos.
+Arguments PFail {A} pos warned.
+
+Definition is_nil (s : str) : bool := match s with [] => true | _ => false end.
 
 (* ---- white space and comments ---- *)
 Definition is_ws (c : N) : bool := (c =? 32) || ((9 <=? c) && (c <=? 13)).
@@ -137,8 +139,9 @@ Definition num_result (s1 : str) : pres expr :=
   | NInt z => POk (EInt z) rest
   | NFloatPow2 m d _ => POk (EFloat (80 :: to_dec m ++ 44 :: to_dec d)) rest
   | NFloatDec t => POk (EFloat (68 :: t)) rest
-  | NErr | NEnd => PFail rest
-  | NPanic _ => PFail []
+  | NErr => PFail rest true
+  | NEnd => PFail rest false
+  | NPanic _ => PFail [] true
   end.
 
 Section WithCond.
@@ -148,20 +151,20 @@ Section WithCond.
   (* the argument list after `(` : stops before `)` *)
   Fixpoint args_loop (n : nat) (s : str) : pres exprs :=
     match n with
-    | O => PFail s
+    | O => PFail s true
     | S k =>
         match skip s with
-        | [] => PFail []
+        | [] => PFail [] false
         | c :: _ =>
             if c =? 41 then POk XNil (skip s)
             else match pcond s with
-                 | PFail p => PFail p
+                 | PFail p w => PFail p w
                  | POk e rest =>
                      match tok (lit ",") [] rest with
                      | Some rest2 =>
                          match args_loop k rest2 with
                          | POk more r3 => POk (XCons e more) r3
-                         | PFail p => PFail p
+                         | PFail p w => PFail p w
                          end
                      | None => POk (XCons e XNil) (skip rest)
                      end
@@ -172,7 +175,7 @@ Section WithCond.
   (* parse_object_inner: stops before `}` or at the end of the input *)
   Fixpoint obj_loop (n : nat) (s : str) : pres ofields :=
     match n with
-    | O => PFail s
+    | O => PFail s true
     | S k =>
         match skip s with
         | [] => POk ONil []
@@ -180,54 +183,54 @@ Section WithCond.
             if c =? 125 then POk ONil (skip s)
             else if c =? 46 then
               match tok (lit "...") [] s with
-              | None => PFail (skip s)
+              | None => PFail (skip s) true
               | Some r =>
                   match pcond r with
-                  | PFail p => PFail p
+                  | PFail p w => PFail p w
                   | POk v rest =>
                       match skip rest with
-                      | [] => PFail []
+                      | [] => PFail [] false
                       | d :: rest2 =>
                           if d =? 125 then POk (OSpread v ONil) (skip rest)
                           else if d =? 44 then
                             match obj_loop k rest2 with
                             | POk more r3 => POk (OSpread v more) r3
-                            | PFail p => PFail p
+                            | PFail p w => PFail p w
                             end
-                          else PFail (skip rest)
+                          else PFail (skip rest) true
                       end
                   end
               end
             else
               match field_name s with
-              | None => PFail (skip s)
+              | None => PFail (skip s) true
               | Some (name, r) =>
                   match skip r with
                   | [] => POk (ONamed name (EField name) ONil) []
                   | d :: r2 =>
                       if d =? 58 then
                         match pcond r2 with
-                        | PFail p => PFail p
+                        | PFail p w => PFail p w
                         | POk v rest =>
                             match skip rest with
-                            | [] => PFail []
+                            | [] => PFail [] false
                             | d2 :: rest2 =>
                                 if d2 =? 125 then POk (ONamed name v ONil) (skip rest)
                                 else if d2 =? 44 then
                                   match obj_loop k rest2 with
                                   | POk more r3 => POk (ONamed name v more) r3
-                                  | PFail p => PFail p
+                                  | PFail p w => PFail p w
                                   end
-                                else PFail (skip rest)
+                                else PFail (skip rest) true
                             end
                         end
                       else if d =? 125 then POk (ONamed name (EField name) ONil) (skip r)
                       else if d =? 44 then
                         match obj_loop k r2 with
                         | POk more r3 => POk (ONamed name (EField name) more) r3
-                        | PFail p => PFail p
+                        | PFail p w => PFail p w
                         end
-                      else PFail (skip r)
+                      else PFail (skip r) true
                   end
               end
         end
@@ -236,7 +239,7 @@ Section WithCond.
   (* parse_array_inner: stops before `]` or at the end of the input *)
   Fixpoint arr_loop (n : nat) (s : str) : pres afields :=
     match n with
-    | O => PFail s
+    | O => PFail s true
     | S k =>
         match skip s with
         | [] => POk ANil []
@@ -245,25 +248,25 @@ Section WithCond.
             else if c =? 44 then
               match arr_loop k r0 with
               | POk more r3 => POk (AHole more) r3
-              | PFail p => PFail p
+              | PFail p w => PFail p w
               end
             else
               let spread := starts_with (lit "...") (skip s) in
               let item_start := if spread then skipn 3 (skip s) else s in
               match pcond item_start with
-              | PFail p => PFail p
+              | PFail p w => PFail p w
               | POk v rest =>
                   let mk := fun more => if spread then ASpread v more else ANormal v more in
                   match skip rest with
-                  | [] => PFail []
+                  | [] => PFail [] false
                   | d :: rest2 =>
                       if d =? 93 then POk (mk ANil) (skip rest)
                       else if d =? 44 then
                         match arr_loop k rest2 with
                         | POk more r3 => POk (mk more) r3
-                        | PFail p => PFail p
+                        | PFail p w => PFail p w
                         end
-                      else PFail (skip rest)
+                      else PFail (skip rest) true
                   end
               end
         end
@@ -272,76 +275,76 @@ Section WithCond.
   Definition p_lit (s : str) : pres expr :=
     let s1 := skip s in
     match s1 with
-    | [] => PFail []
+    | [] => PFail [] false
     | c :: r =>
         if is_ident_start c then let '(name, rest) := take_ident s1 in POk (keyword_or_field name) rest
         else if (c =? 34) || (c =? 39) then
           match wx_str_decode c r with
           | Some (v, rest) => POk (EStr v) rest
-          | None => PFail []
+          | None => PFail [] false
           end
         else if is_digit c || (c =? 46) then num_result s1
         else if c =? 40 then
           match pcond r with
-          | PFail p => PFail p
+          | PFail p w => PFail p w
           | POk e rest =>
               match tok (lit ")") [] rest with
               | Some rest2 => POk e rest2
-              | None => PFail (skip rest)
+              | None => PFail (skip rest) true
               end
           end
         else if c =? 123 then
           match obj_loop (S (length r)) r with
-          | PFail p => PFail p
+          | PFail p w => PFail p w
           | POk fs rest =>
               match tok (lit "}") [] rest with
               | Some rest2 => POk (EObj fs) rest2
-              | None => PFail (skip rest)
+              | None => PFail (skip rest) true
               end
           end
         else if c =? 91 then
           match arr_loop (S (length r)) r with
-          | PFail p => PFail p
+          | PFail p w => PFail p w
           | POk fs rest =>
               match tok (lit "]") [] rest with
               | Some rest2 => POk (EArr fs) rest2
-              | None => PFail (skip rest)
+              | None => PFail (skip rest) true
               end
           end
-        else PFail s1
+        else PFail s1 true
     end.
 
   (* the member / index / call chain of parse_member *)
   Fixpoint member_loop (n : nat) (obj : expr) (s : str) : pres expr :=
     match n with
-    | O => PFail s
+    | O => PFail s true
     | S k =>
         match tok (lit ".") [lit ".."] s with
         | Some r =>
             match field_name r with
             | Some (name, rest) => member_loop k (EMember obj name) rest
-            | None => PFail (skip r)
+            | None => PFail (skip r) true
             end
         | None =>
             match tok (lit "[") [] s with
             | Some r =>
                 match pcond r with
-                | PFail p => PFail p
+                | PFail p w => PFail p w
                 | POk e rest =>
                     match tok (lit "]") [] rest with
                     | Some rest2 => member_loop k (EIndex obj e) rest2
-                    | None => PFail (skip rest)
+                    | None => PFail (skip rest) (negb (is_nil (skip rest)))
                     end
                 end
             | None =>
                 match tok (lit "(") [] s with
                 | Some r =>
                     match args_loop (S (length r)) r with
-                    | PFail p => PFail p
+                    | PFail p w => PFail p w
                     | POk args rest =>
                         match tok (lit ")") [] rest with
                         | Some rest2 => member_loop k (ECall obj args) rest2
-                        | None => PFail (skip rest)
+                        | None => PFail (skip rest) (negb (is_nil (skip rest)))
                         end
                     end
                 | None => POk obj (skip s)
@@ -352,20 +355,20 @@ Section WithCond.
 
   Definition p_member (s : str) : pres expr :=
     match p_lit s with
-    | PFail p => PFail p
+    | PFail p w => PFail p w
     | POk o rest => member_loop (S (length rest)) o rest
     end.
 
   (* parse_reverse *)
   Fixpoint unary_loop (n : nat) (s : str) : pres expr :=
     match n with
-    | O => PFail s
+    | O => PFail s true
     | S k =>
         match first_op unops s with
         | Some (u, rest) =>
             match unary_loop k rest with
             | POk e r => POk (EUn u e) r
-            | PFail p => PFail p
+            | PFail p w => PFail p w
             end
         | None => p_member s
         end
@@ -375,20 +378,20 @@ Section WithCond.
   (* parse_left_to_right! *)
   Fixpoint level_loop (next : str -> pres expr) (ops : optab binop) (n : nat) (left : expr) (s : str) : pres expr :=
     match n with
-    | O => PFail s
+    | O => PFail s true
     | S k =>
         match first_op ops s with
         | Some (b, rest) =>
             match next rest with
             | POk r rest2 => level_loop next ops k (EBin b left r) rest2
-            | PFail p => PFail p
+            | PFail p w => PFail p w
             end
         | None => POk left (skip s)
         end
     end.
   Definition level (next : str -> pres expr) (ops : optab binop) (s : str) : pres expr :=
     match next s with
-    | PFail p => PFail p
+    | PFail p w => PFail p w
     | POk l rest => level_loop next ops (S (length rest)) l rest
     end.
 
@@ -405,19 +408,19 @@ Section WithCond.
 
   Definition cond_body (s : str) : pres expr :=
     match p_lor s with
-    | PFail p => PFail p
+    | PFail p w => PFail p w
     | POk c rest =>
         match tok_cond rest with
         | None => POk c (skip rest)
         | Some r =>
             match pcond r with
-            | PFail p => PFail p
+            | PFail p w => PFail p w
             | POk t rest2 =>
                 match tok (lit ":") [] rest2 with
-                | None => PFail (skip rest2)
+                | None => PFail (skip rest2) true
                 | Some r3 =>
                     match pcond r3 with
-                    | PFail p => PFail p
+                    | PFail p w => PFail p w
                     | POk f rest3 => POk (ECond c t f) rest3
                     end
                 end
@@ -428,7 +431,7 @@ End WithCond.
 
 Fixpoint parse_cond_fuel (fuel : nat) (s : str) : pres expr :=
   match fuel with
-  | O => PFail s
+  | O => PFail s true
   | S f => cond_body (parse_cond_fuel f) s
   end.
 Definition parse_cond (s : str) : pres expr := parse_cond_fuel (S (length s)) s.
@@ -448,7 +451,7 @@ Definition parse_top (tdata : bool) (s : str) : pres expr :=
   if is_object_inner tdata s then
     match obj_loop (parse_cond_fuel (S (length s))) (S (length s)) s with
     | POk fs rest => POk (EObj fs) rest
-    | PFail p => PFail p
+    | PFail p w => PFail p w
     end
   else parse_cond s.
 
@@ -469,12 +472,37 @@ Definition binding (tdata : bool) (s : str) : option expr * str :=
   if starts_with (lit "}}") (skip s) then (None, skipn 2 (skip s))
   else
     match parse_top tdata s with
-    | PFail p => (None, match find_close p with Some (_, a) => a | None => [] end)
+    | PFail p _ => (None, match find_close p with Some (_, a) => a | None => [] end)
     | POk e rest =>
         match find_close (drop_ws rest) with
         | None => (None, [])
         | Some ([], a) => (Some e, a)
         | Some (_ :: _, a) => (None, a)
+        end
+    end.
+
+(* the diagnostic the binding parser itself is responsible for *)
+Inductive bdiag :=
+  | DOk
+  | DEmpty                               (* EmptyExpression *)
+  | DGarbage                             (* UnexpectedExpressionCharacter after the expression *)
+  | DMissingEnd (inner_warned : bool)    (* MissingExpressionEnd *)
+  | DInner (inner_warned : bool).        (* the expression parser failed; the binding is skipped up to the next "}}" *)
+
+Definition binding_d (tdata : bool) (s : str) : option expr * str * bdiag :=
+  if starts_with (lit "}}") (skip s) then (None, skipn 2 (skip s), DEmpty)
+  else
+    match parse_top tdata s with
+    | PFail p w =>
+        match find_close p with
+        | Some (_, a) => (None, a, DInner w)
+        | None => (None, [], DMissingEnd w)
+        end
+    | POk e rest =>
+        match find_close (drop_ws rest) with
+        | None => (None, [], DMissingEnd false)
+        | Some ([], a) => (Some e, a, DOk)
+        | Some (_ :: _, a) => (None, a, DGarbage)
         end
     end.
 
@@ -508,8 +536,6 @@ Definition append_text (ret : vst) (t : str) : vst :=
   | RD (EBin BAdd l (EStr v)) w => RD (EBin BAdd l (EStr (v ++ t))) w
   | RD e w => RD e w     (* unreachable after convert_for_text *)
   end.
-
-Definition is_nil (s : str) : bool := match s with [] => true | _ => false end.
 
 Section Value.
   Variable named : str -> option str.      (* the named character references *)
